@@ -492,7 +492,7 @@ func genFold(r *rand.Rand, depth int) []byte {
 }
 
 func synthetic(r *rand.Rand) ([]byte, string) {
-	switch r.Intn(6) {
+	switch r.Intn(7) {
 	case 0: // nested type descriptor + garbage / nil values
 		fold := genFold(r, 1+r.Intn(5))
 		if r.Intn(3) == 0 { // deep chain of slices
@@ -555,6 +555,10 @@ func synthetic(r *rand.Rand) ([]byte, string) {
 		out := bytes.Repeat([]byte{132}, d)
 		out = append(out, [][]byte{{255}, {145, 1}, {141, 0, 1, 'x'}, {}, {132}}[r.Intn(5)]...)
 		return out, "any-chain"
+	case 5: // map[any]int8 whose interface key holds a slice: reflect's SetMapIndex panics (unhashable), Decode must recover
+		out := []byte{130, 0, 3, 159, 132, 146, 159, 0, 0, 0, 1}
+		out = append(out, [][]byte{{130, 0, 2, 157, 146, 157, 0, 0, 0, 0}, {130, 0, 2, 157, 146, 255}, {130, 0, 3, 159, 146, 146, 255}}[r.Intn(3)]...)
+		return append(out, byte(r.Intn(256))), "unhashable-key"
 	default:
 		t := make([]byte, r.Intn(64))
 		r.Read(t)
@@ -583,9 +587,9 @@ func knownCases(known map[string]bool, thorough bool) []hcase {
 		add("zero-width-loop", "zero-width-loop", []byte{130, 0, 11, 158, 0xff, 0xff, 0xff, 0xff, 158, 0, 0, 0, 0, 150, 0xff})
 	}
 	if known["nested-count-amplification"] {
-		levels := 1500
+		levels := 2600
 		if thorough {
-			levels = 4000
+			levels = 3000
 		}
 		var b []byte
 		rem := levels * 10
@@ -819,10 +823,14 @@ func runEdf(f flags) {
 		in := c.bytes()
 		// tags of C11's known findings showing up in the idempotence check
 		if ob.Outcome == "value" && (hasZeroWidth(ob.T) || hasZeroWidthV(ob.V)) {
+			// decoded value with zero-width elements ([0]T, struct{}): its re-encoding does not decode
+			// (C11's known finding, here seen by the idempotence check): an input class of a known
+			// finding is reported only when the finding is listed
+			if !f.known["zero-width-elem"] && f.replay == "" {
+				o.Stats["dropped:zero-width-elem"]++
+				continue
+			}
 			c.Tags = append(c.Tags, "zero-width-elem")
-		}
-		if ob.Outcome == "value" && unnamedArrayKey(ob.T) {
-			c.Tags = append(c.Tags, "map-array-key")
 		}
 		skip := c.Skip || ob.TooBig || ob.Outcome == "crash" || ob.Outcome == "oom" || ob.Outcome == "hang" || len(in) > 4000
 		dec := "None"
